@@ -109,7 +109,7 @@ def gen(tier, seed):
     import workcheck
     import sigcheck
     scripts = []
-    k = 80 if tier == "quick" else 1500
+    k = 80 if tier == "quick" else 400
     for i in range(k):
         m = rnd.choice(coregen.METHODS)
         scripts.append(rescheck.with_opts(mtcheck.random_mt_script(rnd, "C14e%d.%d" % (seed, i), "C08", m, []), "memrec=2"))
@@ -153,7 +153,7 @@ def run(pid, tier, seed, replay=None):
             import sigcheck
             for name, (opts, body) in sorted(sigcheck.SMALL["C11"].items()):
                 s_, t_, _n, _c = mtcheck.enumerate_schedules(exe, sc, name, body, "epoll memrec=2 " + opts, [],
-                                                             60 if tier == "quick" else 1500, "C14e")
+                                                             60 if tier == "quick" else 400, "C14e")
                 scripts += s_
                 tfs += t_
         idx = corerun.script_index(scripts)
